@@ -603,7 +603,10 @@ func main() {
 		upd  func(h int) int
 	}
 	ocs := []ocase{{"ok", func(h int) int { return h }}, {"ok", func(int) int { return 0 }}, {"ok", func(int) int { return 0b1111 }},
-		{"refresh-fail", func(h int) int { return h }}, {"healthy-fail", func(h int) int { return h }}}
+		{"refresh-fail", func(h int) int { return h }}, {"healthy-fail", func(h int) int { return h }},
+		// the refreshed healthy list is as long as, or shorter than, the caller's candidates but has other members (an
+		// endpoint went down and another came up between the handler's read and the strategy's re-read)
+		{"ok", func(h int) int { return (h<<1 | h>>3) & 0b1111 }}, {"ok", func(h int) int { return h >> 1 }}, {"ok", func(h int) int { return h ^ 0b0101 }}}
 
 	// the known witnesses first (they are the corpus)
 	caseRoute(c, fac, all, routing.StrategyDiscovery, constants.FallbackBehaviorCompatibleOnly, false, "ok", 0b0001, 0b0001, 0)
